@@ -1,9 +1,10 @@
 """C03 — Training gradients are the exact gradients of the negative log-likelihood.
 
-Correspondence (implementation vs the extracted Coq model, coq/model/Grads.v + Rbm.v):
-  effective_energy_gradient(reduce=True/False, 2-D and 1-D), gamma_grad(eta=+-1, expand=True/False),
-  pi_grad(phase=True/False, expand=True/False), am_grads, ph_grads, rotated_gradient, gradient (2-D batch and
-  1-D single-sample form, bases=None form), positive_phase_gradients, compute_exact_gradients,
+Observables of the property (anchors.observe_at): the return values of gradient, positive_phase_gradients,
+compute_exact_gradients / compute_exact_grads — plus the order in which training writes a flat gradient into the model.
+
+Correspondence (implementation vs the extracted Coq model, coq/model/Grads.v + Rbm.v), PUBLIC observables only:
+  gradient (2-D batch, 1-D single-sample form, bases=None form), positive_phase_gradients, compute_exact_gradients,
   PositiveWaveFunction.compute_exact_grads, parameters_to_vector / vector_to_grads layout, np.unique grouping.
 
 Oracle (independent of the code under test; evaluated on the implementation itself):
@@ -13,19 +14,24 @@ Oracle (independent of the code under test; evaluated on the implementation itse
     for EVERY parameter of EVERY network in the order of nn.Module.parameters() (the live .data entries are
     perturbed in that order), compared with compute_exact_gradients entry by entry;
     mixed states: (1/|D|) [ sum_{all-Z rows} E_lambda(s) - sum_{rotated rows} ln(P_s + 1e-8) ] + ln Z;
-  * d rho(v, v') / d theta = rho(v, v') * am_grads / ph_grads (finite differences of the implementation's rho);
   * positive phase = gradient / |batch| = mean of the per-sample (1-D form) gradients, for any row permutation and
     any split of the batch;
   * every public gradient method is callable and they agree with each other (compute_exact_grads alias,
-    Positive wrappers ignoring bases, gradient(bases=None) = all-Z path)."""
+    Positive wrappers ignoring bases, gradient(bases=None) = all-Z path).
+
+Recorded only (evidence histogram internal_agree:* / internal_differs:* / internal_unavailable:*, never a verdict):
+  the internal helpers effective_energy_gradient, gamma_grad / pi_grad (expand=True, the only form the library uses),
+  am_grads, ph_grads, rotated_gradient vs the model's rendering of them, and d rho = rho * am_grads / ph_grads.
+  A rewrite that moves a sign or factor between these helpers without changing a public value leaves the check silent.
+  The 1-D form handed to positive_phase_gradients / compute_exact_gradients is recorded too (see one_d_public_forms)."""
 import itertools, math, time
 import numpy as np
 import gen
 
 RULE = ("state types positive / complex / density-matrix; nv 1..3 (quick) / 1..4 (thorough), nh != nv in most shapes, "
-        "na != nv for mixed states, all biases non-zero (aux bias of the phase net = 0 as documented, except in the "
-        "pi_grad(expand=False) correspondence); data sets: every one of the 3^n basis strings (n <= 2 quick, <= 3 thorough, "
-        "sampled beyond) with outcomes of probability >= 1e-4, plus mixed batches with repeated bases, all-Z rows, a random "
+        "na != nv for mixed states, all biases non-zero (aux bias of the phase net = 0 as documented); mixed-state cases are "
+        "generated first and interleaved with the other state types; data sets: every one of the 3^n basis strings "
+        "(n <= 3 quick, <= 4 thorough) with 1-3 outcomes of probability >= 1e-4 each, plus mixed batches with repeated bases, all-Z rows, a random "
         "row permutation and a random split; a case is (state type, shape, parameter draw, data set); "
         "non-trivial := >= 2 distinct bases incl. one containing Y, all biases non-zero")
 ASSUMPTIONS = ["finite differences (steps 1e-4 / 5e-5, Richardson) resolve the NLL derivative to ~1e-8 absolute; a case is "
@@ -187,7 +193,7 @@ def fd_matches(s, f, grads, tol=1e-6):
 
 # --------------------------------------------------------------------------- data sets
 def basis_list(ctx, nv):
-    lim = 3 if ctx.thorough else 2
+    lim = 4 if ctx.thorough else 3
     allb = gen.all_bases(nv)
     if nv <= lim:
         return allb
@@ -212,7 +218,7 @@ def draw_dataset(ctx, s, kind, nv, space, Ucache):
         good = np.where(p >= 1e-4)[0]
         if good.size == 0:
             continue
-        reps = 1 + int(ctx.rng.integers(0, 2)) + (2 if set(b) == {"Z"} else 0)
+        reps = 1 + int(ctx.rng.integers(0, 3 if len(bl) <= 27 else 2)) + (2 if set(b) == {"Z"} else 0)
         for _ in range(reps):
             rows.append((b, sp[int(ctx.rng.choice(good))].tolist()))
     perm = ctx.rng.permutation(len(rows))
@@ -298,21 +304,89 @@ def oracle_case(ctx, s, kind, space, bases, samples, case, full_fd=True):
         oka, AL = ctx.call("compute_exact_grads", case, lambda: tlist(s.compute_exact_grads(smp, space)))
         if oka:
             ctx.require("compute_exact_grads == compute_exact_gradients",
-                        len(AL) == 1 and bool(np.allclose(AL[0], EX[0], rtol=1e-12, atol=1e-13)), case)
+                        len(AL) == 1 and bool(np.allclose(AL[0], EX[0], rtol=1e-9, atol=1e-11 * scale[0])), case)
         okb, Gb = ctx.call("gradient with ignored bases argument", case, lambda: tlist(s.gradient(smp, nb)))
         if okb:
-            ctx.require("Positive.gradient ignores bases", bool(np.allclose(Gb[0], G[0], rtol=1e-12, atol=1e-13)), case)
+            ctx.require("Positive.gradient ignores bases", bool(np.allclose(Gb[0], G[0], rtol=1e-9, atol=1e-11 * scale[0])), case)
         okc, Ec = ctx.call("compute_exact_gradients with bases argument", case,
                            lambda: tlist(s.compute_exact_gradients(smp, space, bases_batch=nb)))
         if okc:
-            ctx.require("Positive.compute_exact_gradients ignores bases", bool(np.allclose(Ec[0], EX[0], rtol=1e-12, atol=1e-13)), case)
+            ctx.require("Positive.compute_exact_gradients ignores bases", bool(np.allclose(Ec[0], EX[0], rtol=1e-9, atol=1e-11 * scale[0])), case)
+    one_d_public_forms(ctx, s, kind, space, smp, nb, case)
     return G, PP, EX
 
 
-def drho_oracle(ctx, s, space, case):
-    """d rho(v_i, v_j)/d theta == rho(v_i, v_j) * (am_grads | ph_grads)[i, j, :]  by finite differences of rho."""
-    import torch
-    okk, raw = ctx.call("am_grads / ph_grads", case, lambda: (s.am_grads(space).numpy(), s.ph_grads(space).numpy()))
+ONE_D_MATCH = {"call": "positive_phase_gradients", "form": "1-D"}
+
+
+def one_d_public_forms(ctx, s, kind, space, smp, nb, case):
+    """1-D single-sample form handed to positive_phase_gradients / compute_exact_gradients.
+    The property's quantifier names the 1-D form for the per-sample gradient (`gradient`, required above); for the two
+    batch methods the docstrings ask for a batch.  On /repo they divide by samples.shape[0] = num_visible (audit b, M2).
+    The outcome is recorded in the evidence histogram; it is turned into a requirement (reported as KNOWN-FINDING) exactly
+    when /verif/known_findings.json carries an open C03 entry whose match contains ONE_D_MATCH."""
+    i = int(ctx.rng.integers(0, smp.shape[0]))
+    nv = int(smp.shape[1])
+    try:
+        if kind == "positive":
+            g1 = tlist(s.gradient(smp[i]))
+            p1 = tlist(s.positive_phase_gradients(smp[i]))
+            e1 = tlist(s.compute_exact_gradients(smp[i], space))
+            eb = tlist(s.compute_exact_gradients(smp[i:i + 1], space))
+        else:
+            g1 = tlist(s.gradient(smp[i], bases=nb[i]))
+            p1 = tlist(s.positive_phase_gradients(smp[i], bases_batch=nb[i]))
+            e1 = tlist(s.compute_exact_gradients(smp[i], space, bases_batch=nb[i]))
+            eb = tlist(s.compute_exact_gradients(smp[i:i + 1], space, bases_batch=nb[i:i + 1]))
+    except Exception as e:
+        ctx.count("1d_batch_methods:raised_" + type(e).__name__)
+        return
+    sc = max(1.0, max(float(np.max(np.abs(g))) for g in g1))
+    same = all(np.allclose(a, b, rtol=1e-9, atol=1e-11 * sc) for a, b in zip(p1, g1))
+    by_nv = all(np.allclose(np.asarray(a) * nv, b, rtol=1e-9, atol=1e-11 * sc) for a, b in zip(p1, g1))
+    exact_same = all(np.allclose(a, b, rtol=1e-9, atol=1e-11 * sc) for a, b in zip(e1, eb))
+    ctx.count("1d_positive_phase:" + ("equals_per_sample_gradient" if same else "divides_by_num_visible" if by_nv else "other"))
+    ctx.count("1d_compute_exact_gradients:" + ("equals_batch_of_one" if exact_same else "differs_from_batch_of_one"))
+    if any(k.get("status") == "open" and all(k.get("match", {}).get(a) == b for a, b in ONE_D_MATCH.items()) for k in ctx.known):
+        c2 = dict(case, **ONE_D_MATCH)
+        ctx.require("1-D positive_phase_gradients == per-sample gradient (batch of one row)", same, c2,
+                    {"row": i, "num_visible": nv, "divides_by_num_visible": by_nv})
+        ctx.require("1-D compute_exact_gradients == compute_exact_gradients of the batch of one row", exact_same, c2, {"row": i})
+
+
+# --------------------------------------------------------------------------- diagnostics on internal helpers
+# am_grads / ph_grads / pi_grad / gamma_grad / rotated_gradient / effective_energy_gradient are NOT observables of the
+# property (observe_at = gradient, positive_phase_gradients, compute_exact_gradients / compute_exact_grads).  A rewrite
+# that moves a sign or a factor between them, or deletes a call form the library never uses, leaves every public value
+# unchanged and must leave this check silent.  They are therefore only *recorded*: agreement with the model's rendering
+# of today's internals goes to the evidence histogram (internal_agree:* / internal_differs:* / internal_unavailable:*)
+# and the first few differences to coverage.internal_diagnostics; nothing here can produce a VIOLATION.
+def diag(ctx, name, impl, model, **tol):
+    import common
+    try:
+        ok, detail = common.close(impl, model, **tol)
+    except Exception as e:                                    # shape the model does not know, etc.
+        ok, detail = False, repr(e)[:200]
+    ctx.count(("internal_agree:" if ok else "internal_differs:") + name)
+    if not ok:
+        lst = ctx.extra.setdefault("internal_diagnostics", [])
+        if len(lst) < 10:
+            lst.append({"what": name, "detail": str(detail)[:300]})
+    return ok
+
+
+def internal(ctx, name, fn):
+    """call an internal helper; an exception (e.g. the helper or a call form was removed) is only counted"""
+    try:
+        return True, fn()
+    except Exception as e:
+        ctx.count("internal_unavailable:%s:%s" % (name, type(e).__name__))
+        return False, None
+
+
+def drho_diagnostic(ctx, s, space):
+    """does d rho(v_i, v_j)/d theta equal rho(v_i, v_j) * (am_grads | ph_grads)[i, j, :] ?  (today's internal convention)"""
+    okk, raw = internal(ctx, "am_grads/ph_grads", lambda: (s.am_grads(space).numpy(), s.ph_grads(space).numpy()))
     if not okk:
         return
     d = space.shape[0]
@@ -324,50 +398,30 @@ def drho_oracle(ctx, s, space, case):
     h = 1e-4
     r0 = rho_c()
     for which, net in enumerate(s.networks):
-        g = raw[which][0] + 1j * raw[which][1]          # (d, d, G)
-        k = 0
-        for p in getattr(s, net).parameters():
-            fl = p.data.view(-1)
-            for e in range(fl.numel()):
-                x0 = fl[e].item()
-                vals = []
-                for x in (x0 + h, x0 - h, x0 + h / 2, x0 - h / 2):
-                    fl[e] = x
-                    vals.append(rho_c())
-                fl[e] = x0
-                dr = (4 * (vals[2] - vals[3]) / h - (vals[0] - vals[1]) / (2 * h)) / 3
-                for (i, j) in pairs:
-                    want = r0[i, j] * g[i, j, k]
-                    lim = 1e-6 * max(1.0, abs(r0[i, j])) * max(1.0, float(np.max(np.abs(g[i, j]))))
-                    if not abs(dr[i, j] - want) <= lim:
-                        ctx.require("d rho/d theta == rho * %s" % ("am_grads" if which == 0 else "ph_grads"), False, case,
-                                    {"net": net, "param_index": k, "pair": [i, j], "finite_difference": str(dr[i, j]), "rho*grad": str(want)})
-                        return
-                k += 1
-
-
-def energy_fd_oracle(ctx, s, rbm, v, case, name):
-    """effective_energy_gradient(v) == finite differences of effective_energy(v), parameters() order."""
-    okk, g = ctx.call(name + ".effective_energy_gradient", case, lambda: rbm.effective_energy_gradient(v).numpy())
-    if not okk:
-        return
-    h = 1e-4
-    k = 0
-    for p in rbm.parameters():
-        fl = p.data.view(-1)
-        for e in range(fl.numel()):
-            x0 = fl[e].item()
-            vals = []
-            for x in (x0 + h, x0 - h, x0 + h / 2, x0 - h / 2):
-                fl[e] = x
-                vals.append(float(rbm.effective_energy(v).sum()))
-            fl[e] = x0
-            d = (4 * (vals[2] - vals[3]) / h - (vals[0] - vals[1]) / (2 * h)) / 3
-            if not abs(d - g[k]) <= 1e-6 * max(1.0, abs(g[k])):
-                ctx.require(name + ".effective_energy_gradient == finite differences of effective_energy", False, case,
-                            {"param_index": k, "finite_difference": d, "returned": float(g[k])})
-                return
-            k += 1
+        name = "d_rho==rho*" + ("am_grads" if which == 0 else "ph_grads")
+        try:
+            g = raw[which][0] + 1j * raw[which][1]          # (d, d, G)
+            good = True
+            k = 0
+            for p in getattr(s, net).parameters():
+                fl = p.data.view(-1)
+                for e in range(fl.numel()):
+                    x0 = fl[e].item()
+                    vals = []
+                    for x in (x0 + h, x0 - h, x0 + h / 2, x0 - h / 2):
+                        fl[e] = x
+                        vals.append(rho_c())
+                    fl[e] = x0
+                    dr = (4 * (vals[2] - vals[3]) / h - (vals[0] - vals[1]) / (2 * h)) / 3
+                    for (i, j) in pairs:
+                        want = r0[i, j] * g[i, j, k]
+                        lim = 1e-6 * max(1.0, abs(r0[i, j])) * max(1.0, float(np.max(np.abs(g[i, j]))))
+                        if not abs(dr[i, j] - want) <= lim:
+                            good = False
+                    k += 1
+        except Exception:
+            good = False
+        ctx.count(("internal_agree:" if good else "internal_differs:") + name)
 
 
 # --------------------------------------------------------------------------- correspondence with the Coq model
@@ -377,28 +431,15 @@ def cplx_pairs(t):
     return np.stack([a[0], a[1]], axis=-1)
 
 
-def corr_rbm_level(ctx, s, kind, am, ph, space, case):
+def corr_layout(ctx, s, kind, am, ph, case):
+    """parameters_to_vector / vector_to_grads: the order in which training writes gradients into the model (property text)."""
     import torch
+    from torch.nn.utils import parameters_to_vector
+    from qucumber.utils.gradients_utils import vector_to_grads
     m = ctx.get_model()
-    sp = space.numpy()
-    rows = sp[ctx.rng.permutation(len(sp))[: min(len(sp), 5)]]
-    vt = torch.tensor(rows, dtype=torch.double)
     nets = [("rbm_am", am)] + ([("rbm_ph", ph)] if ph is not None else [])
     for name, par in nets:
         rbm = getattr(s, name)
-        fn = "c03_p_egrad" if kind == "dm" else "c03_b_egrad"
-        mrows, mbatch = m.call(fn, *par, rows)
-        okk, out = ctx.call(name + ".effective_energy_gradient", case, lambda: (
-            rbm.effective_energy_gradient(vt, reduce=False), rbm.effective_energy_gradient(vt, reduce=True),
-            rbm.effective_energy_gradient(vt[0], reduce=False), rbm.effective_energy_gradient(vt[0], reduce=True)))
-        if okk:
-            ctx.agree(name + " energy gradient reduce=False", out[0], mrows, case)
-            ctx.agree(name + " energy gradient reduce=True", out[1], mbatch, case)
-            ctx.agree(name + " energy gradient 1-D reduce=False", out[2], [mrows[0]], case)
-            ctx.agree(name + " energy gradient 1-D reduce=True", out[3], mrows[0], case)
-        # layout: parameters_to_vector / vector_to_grads
-        from torch.nn.utils import parameters_to_vector
-        from qucumber.utils.gradients_utils import vector_to_grads
         flat = parameters_to_vector(rbm.parameters())
         ctx.agree_exact(name + " parameters_to_vector layout", flat.tolist(),
                         m.call("c03_p_flatten" if kind == "dm" else "c03_b_flatten", *par), case)
@@ -415,46 +456,52 @@ def corr_rbm_level(ctx, s, kind, am, ph, space, case):
             ctx.require("vector_to_grads then reading .grad in parameters() order is the identity", bool(torch.equal(back, vec)), case)
             for p in rbm.parameters():
                 p.grad = None
-        energy_fd_oracle(ctx, s, rbm, vt[0], case, name)
+
+
+def diag_internals(ctx, s, kind, am, ph, space):
+    """internal helpers vs the model's rendering of them — recorded only (see the comment above [diag])."""
+    import torch
+    m = ctx.get_model()
+    sp = space.numpy()
+    rows = sp[ctx.rng.permutation(len(sp))[: min(len(sp), 5)]]
+    vt = torch.tensor(rows, dtype=torch.double)
+    nets = [("rbm_am", am)] + ([("rbm_ph", ph)] if ph is not None else [])
+    for name, par in nets:
+        rbm = getattr(s, name)
+        mrows, mbatch = m.call("c03_p_egrad" if kind == "dm" else "c03_b_egrad", *par, rows)
+        okk, out = internal(ctx, name + ".effective_energy_gradient", lambda: (
+            rbm.effective_energy_gradient(vt, reduce=False), rbm.effective_energy_gradient(vt, reduce=True)))
+        if okk:
+            diag(ctx, "effective_energy_gradient reduce=False", out[0], mrows)
+            diag(ctx, "effective_energy_gradient reduce=True", out[1], mbatch)
     if kind == "complex":
         mam, mph = m.call("c03_cw_raw", *am, *ph, rows)
-        okk, out = ctx.call("am_grads / ph_grads", case, lambda: (s.am_grads(vt), s.ph_grads(vt)))
+        okk, out = internal(ctx, "am_grads/ph_grads", lambda: (s.am_grads(vt), s.ph_grads(vt)))
         if okk:
-            ctx.agree("complex am_grads", cplx_pairs(out[0]), mam, case)
-            ctx.agree("complex ph_grads", cplx_pairs(out[1]), mph, case)
+            diag(ctx, "complex am_grads", cplx_pairs(out[0]), mam)
+            diag(ctx, "complex ph_grads", cplx_pairs(out[1]), mph)
     if kind == "dm":
         vps = sp[ctx.rng.permutation(len(sp))[: len(rows)]]
         vpt = torch.tensor(vps, dtype=torch.double)
-        for name, par in nets:
+        for name, par in nets:                       # only the call form the library itself uses: expand=True
             rbm = getattr(s, name)
             for plus in (True, False):
-                mexp, mpair = m.call("c03_gamma_grad", *par, plus, rows, vps)
                 eta = 1 if plus else -1
-                okk, out = ctx.call(name + ".gamma_grad", case, lambda: (
-                    rbm.gamma_grad(vt, vpt, eta=eta, expand=True), rbm.gamma_grad(vt, vpt, eta=eta, expand=False),
-                    rbm.gamma_grad(vt[0], vpt[0], eta=eta, expand=False)))
+                mexp, _ = m.call("c03_gamma_grad", *par, plus, rows, vps)
+                okk, out = internal(ctx, "gamma_grad", lambda: rbm.gamma_grad(vt, vpt, eta=eta, expand=True))
                 if okk:
-                    ctx.agree("%s gamma_grad eta=%d expand=True" % (name, eta), out[0][0], mexp, case)
-                    ctx.agree("%s gamma_grad eta=%d expand=False" % (name, eta), out[1][0], mpair, case)
-                    ctx.agree("%s gamma_grad eta=%d 1-D" % (name, eta), out[2][0], mpair[0], case)
-                    ctx.require("gamma_grad imaginary part is zero", bool(torch.all(out[0][1] == 0) and torch.all(out[1][1] == 0)), case)
+                    diag(ctx, "gamma_grad eta=%+d" % eta, out[0], mexp)
         for phase in (True, False):
-            mexp, mpair = m.call("c03_pi_grad", *am, *ph, phase, rows, vps)
-            okk, out = ctx.call("pi_grad", case, lambda: (
-                s.pi_grad(vt, vpt, phase=phase, expand=True), s.pi_grad(vt, vpt, phase=phase, expand=False),
-                s.pi_grad(vt[0], vpt[0], phase=phase, expand=False)))
+            mexp, _ = m.call("c03_pi_grad", *am, *ph, phase, rows, vps)
+            okk, out = internal(ctx, "pi_grad", lambda: s.pi_grad(vt, vpt, phase=phase, expand=True))
             if okk:
-                ctx.agree("pi_grad phase=%s expand=True" % phase, cplx_pairs(out[0]), mexp, case)
-                ctx.agree("pi_grad phase=%s expand=False" % phase, cplx_pairs(out[1]), mpair, case)
-                ctx.agree("pi_grad phase=%s 1-D" % phase, cplx_pairs(out[2]), mpair[0], case)
-                if phase:
-                    na = s.num_aux
-                    ctx.require("aux-bias block of the phase-net pi_grad is zero", bool(torch.all(out[0][..., -na:] == 0)), case)
+                diag(ctx, "pi_grad phase=%s" % phase, cplx_pairs(out), mexp)
         mam, mph = m.call("c03_dm_raw", *am, *ph, rows)
-        okk, out = ctx.call("am_grads / ph_grads", case, lambda: (s.am_grads(vt), s.ph_grads(vt)))
+        okk, out = internal(ctx, "am_grads/ph_grads", lambda: (s.am_grads(vt), s.ph_grads(vt)))
         if okk:
-            ctx.agree("mixed am_grads", cplx_pairs(out[0]), mam, case)
-            ctx.agree("mixed ph_grads", cplx_pairs(out[1]), mph, case)
+            diag(ctx, "mixed am_grads", cplx_pairs(out[0]), mam)
+            diag(ctx, "mixed ph_grads", cplx_pairs(out[1]), mph)
+        drho_diagnostic(ctx, s, space)
 
 
 def corr_state_level(ctx, s, kind, am, ph, space, bases, samples, case, impl):
@@ -487,17 +534,17 @@ def corr_state_level(ctx, s, kind, am, ph, space, bases, samples, case, impl):
     smp = torch.tensor(samples, dtype=torch.double)
     nb = np_bases(bases)
     seen = 0
-    for b in dict.fromkeys(bases):
+    for b in dict.fromkeys(bases):                   # internal helper: recorded only
         if set(b) == {"Z"} or seen >= 4:
             continue
         seen += 1
         sel = [i for i, bb in enumerate(bases) if bb == b]
-        okk, rg = ctx.call("rotated_gradient", case, lambda: tlist(s.rotated_gradient(np.array(list(b)), smp[sel])))
+        okk, rg = internal(ctx, "rotated_gradient", lambda: tlist(s.rotated_gradient(np.array(list(b)), smp[sel])))
         if okk:
             mr = m.call("c03_cw_rot" if kind == "complex" else "c03_dm_rot", *am, *ph, bnum([b])[0], [samples[i] for i in sel])
             for k in range(2):
                 sc = max(1.0, float(np.max(np.abs(mr[k]))))
-                ctx.agree("%s rotated_gradient[%d] basis %s" % (kind, k, b), rg[k], mr[k], case, rtol=1e-6, atol=1e-8, scale=sc)
+                diag(ctx, "rotated_gradient[%d]" % k, rg[k], mr[k], rtol=1e-6, atol=1e-8, scale=sc)
     i = int(ctx.rng.integers(0, len(bases)))
     okk, g1 = ctx.call("gradient 1-D form", case, lambda: tlist(s.gradient(smp[i], bases=nb[i])))
     if okk:
@@ -540,12 +587,12 @@ def one_case(ctx, kind, nv, nh, na, corr=True, given=None):
     ctx.count("state:" + kind); ctx.count("nv:%d" % nv); ctx.count("rows", len(bases))
     ctx.count("bases_with_Y", sum(1 for b in distinct if "Y" in b)); ctx.count("all_Z_rows", sum(1 for b in bases if set(b) == {"Z"}))
     impl = oracle_case(ctx, s, kind, space, bases, samples, case)
-    if kind == "dm":
-        drho_oracle(ctx, s, space, case)
     if corr and impl is not None:
         corr_state_level(ctx, s, kind, am, ph, space, bases, samples, case, impl)
-        corr_rbm_level(ctx, s, kind, am, ph, space, case)
+        corr_layout(ctx, s, kind, am, ph, case)
+        diag_internals(ctx, s, kind, am, ph, space)
     ctx.traces += 1
+    ctx.count("completed:" + kind)
 
 
 def shapes(ctx, kind):
@@ -558,18 +605,39 @@ def shapes(ctx, kind):
     return [(1, 2, 0), (2, 3, 0), (2, 1, 0), (3, 2, 0), (3, 4, 0)]
 
 
+KINDS = ("dm", "complex", "positive")      # mixed states first: their NLL clause has no theorem, only this check
+
+
+def jobs(ctx, draws):
+    """round-robin over state types and shapes, so that every state type and every shape is exercised early"""
+    per = {k: shapes(ctx, k) for k in KINDS}
+    out = []
+    for d in range(draws):
+        for i in range(max(len(v) for v in per.values())):
+            for k in KINDS:
+                if i < len(per[k]) and not (k == "positive" and d == draws - 1 and draws > 1):
+                    out.append((k,) + tuple(per[k][i]))
+    return out
+
+
+BUDGET_S = {"quick": 20, "thorough": 420}      # generation budget; the first two cases of every state type ignore it
+
+
 def run(ctx):
-    draws = 3
+    draws = 3 if ctx.thorough else 2
     t0 = time.time()
-    budget = 420 if ctx.thorough else 28
-    for kind in ("positive", "complex", "dm"):
-        for (nv, nh, na) in shapes(ctx, kind):
-            for d in range(draws if kind != "positive" else max(1, draws - 1)):
-                if time.time() - t0 > budget:
-                    ctx.count("skipped_time_budget")
-                    continue
-                ctx.torch_seed()
-                one_case(ctx, kind, nv, nh, na)
+    budget = BUDGET_S["thorough" if ctx.thorough else "quick"]
+    for (kind, nv, nh, na) in jobs(ctx, draws):
+        done = ctx.hist.get("completed:" + kind, 0)
+        if time.time() - t0 > budget and done >= 2:        # never skip a state type that has not been exercised yet
+            ctx.count("skipped_time_budget:" + kind)
+            continue
+        ctx.torch_seed()
+        one_case(ctx, kind, nv, nh, na)
+    for kind in KINDS:
+        if ctx.hist.get("completed:" + kind, 0) == 0:
+            ctx.disagreements.append({"what": "no %s case was completed in this run: the clause is unchecked" % kind,
+                                      "case": {"state": kind}, "detail": "time budget / generator produced no data set"})
 
 
 def search(ctx, broken, budget):
